@@ -844,3 +844,29 @@ def gen_C13(rng, count, tier):
                 evs += ["up:" + hx(b"late"), "turn"]
         evs += ["ackall", "turn"]
         yield ("proxy", " ".join(toks + evs))
+
+
+# ------------------------------------------------------------------------------------ C10
+
+def gen_C10(rng, count, tier):
+    reqs = {
+        "fs": [b"GET /big.bin HTTP/1.1\r\n\r\n", b"GET /in.txt HTTP/1.1\r\n\r\n", b"GET /sub HTTP/1.1\r\n\r\n", b"GET /big.bin HTTP/1.1\r\nRange: bytes=10-69000\r\n\r\n",
+               b"GET /nonexistent HTTP/1.1\r\n\r\n", b"BAD\r\n\r\n", b"GET /edge.bin HTTP/1.1\r\n\r\n"],
+        "slot": [b"POST /s HTTP/1.1\r\nContent-Length: 5\r\n\r\nhello", b"POST /s HTTP/1.1\r\nContent-Length: 50\r\n\r\nshort", b"GET /s HTTP/1.1\r\n\r\n", b"GET /x HTTP/1.1\r\n\r\n"],
+    }
+    for i in range(count):
+        kind = pick(rng, ["fs", "fs", "fs", "slot"])
+        req = pick(rng, reqs[kind])
+        cut = rng.randrange(0, len(req) + 1) if rng.random() < 0.5 else len(req)
+        sent = req[:cut]
+        segs = cuts(rng, sent) if sent else []
+        evs = ["new"] + ["feed:" + hx(s) for s in segs if s]
+        # ending: client first / server first / server destroyed, at a random point
+        tail = []
+        for _ in range(rng.randrange(0, 6)):
+            tail.append(pick(rng, ["turn", "turn", "ackall", "ack:100", "ack:70000", "peerclose", "killserver" if rng.random() < 0.3 else "turn"]))
+        pos = rng.randrange(1, len(evs) + 1)
+        if rng.random() < 0.3:
+            evs.insert(pos, pick(rng, ["peerclose", "killserver", "turn"]))
+        toks = ["kind:" + kind, "root:" + hx(FSROOT.encode())]
+        yield ("life", " ".join(toks + evs + tail))
